@@ -2045,6 +2045,12 @@ func (ls *LState) Status(th *LState) string {
 }
 
 func (ls *LState) Resume(th *LState, fn *LFunction, args ...LValue) (ResumeState, error, []LValue) {
+	if th.resumed && !th.Dead && th.stack.IsEmpty() && ls.G.CurrentThread != th {
+		// the body was a host function that yielded: nothing is left to run, the values of this resume
+		// are the results of the coroutine (as coroutine.resume does) - the function is not run again
+		th.kill()
+		return ResumeOK, nil, append([]LValue(nil), args...)
+	}
 	isstarted := th.isStarted()
 	if !isstarted {
 		base := 0
@@ -2098,6 +2104,7 @@ func (ls *LState) Resume(th *LState, fn *LFunction, args ...LValue) (ResumeState
 		th.padResumeValues(len(args))
 	}
 	th.wrapped = false // this resume expects the status in front of the values
+	th.resumed = true
 	th.Parent = ls
 	ls.G.CurrentThread = th
 	top := ls.GetTop()
@@ -2114,9 +2121,10 @@ func (ls *LState) Resume(th *LState, fn *LFunction, args ...LValue) (ResumeState
 
 	if haserror {
 		return ResumeError, newApiError(ApiErrorRun, ret[0]), nil
-	} else if th.stack.IsEmpty() {
+	} else if th.Dead {
 		return ResumeOK, nil, ret
 	}
+	// (a host function that is the body and yields leaves no frame behind, but the thread is not finished)
 	return ResumeYield, nil, ret
 }
 
